@@ -34,35 +34,12 @@ MAPD = "ufl.corealg.map_dag"
 
 
 class GenInterp(Interp):
-    """generator functions are run eagerly: a call returns the list of yielded values (sound here because the
-    consumers of these generators never change the state the generator reads between two yields)"""
+    """the interpreter with host-object attribute access; generator functions are the interpreter's lazy generators
+    (producer and consumer interleave as in Python, which matters for the shared `visited` sets)"""
 
     def __init__(self, prog):
         super().__init__(prog)
-        self._yields = []
         self.attr_hook = lambda o, a: getattr(o, a) if isinstance(o, Node) and hasattr(o, a) else NotImplemented
-
-    def call_closure(self, clo: Closure, args, kwargs):
-        node = clo.node
-        if isinstance(node, (ast.FunctionDef,)) and any(isinstance(n, (ast.Yield, ast.YieldFrom)) for n in ast.walk(node) if not isinstance(n, ast.Lambda)) and not any(isinstance(n, ast.FunctionDef) and n is not node and any(isinstance(m, (ast.Yield, ast.YieldFrom)) for m in ast.walk(n)) for n in ast.walk(node)):
-            self._yields.append([])
-            try:
-                super().call_closure(clo, args, kwargs)
-                return self._yields[-1]
-            finally:
-                out = self._yields.pop()
-            return out
-        return super().call_closure(clo, args, kwargs)
-
-    def e_Yield(self, e, env, mod):
-        v = self.eval(e.value, env, mod) if e.value is not None else None
-        self._yields[-1].append(v)
-        return None
-
-    def e_YieldFrom(self, e, env, mod):
-        for v in self.eval(e.value, env, mod):
-            self._yields[-1].append(v)
-        return None
 
 
 class Node:
